@@ -422,6 +422,9 @@ def maps(ctx, lines, expect):
     ts = histlib.tiny_training_set(3, names)
     shapes = [(1, 1), (1, 4), (3, 1), (2, 3), (4, 4), (5, 3)]
     nmaps = 4 if ctx.tier == "quick" else 30
+    acts = ["fit-gcf", "rate", "refit-other", "failed-fit", "failed-refit-stale-params", "fit"]
+    rng.shuffle(acts)
+    next_act = [0]
     for i in range(nmaps):
         xn, yn = shapes[i % len(shapes)] if i < len(shapes) else (rng.randint(1, 6), rng.randint(1, 6))
         kind = rng.choice(["row-major", "serpentine", "column-major", "reverse", "random"])
@@ -448,9 +451,11 @@ def maps(ctx, lines, expect):
             ctx.violation("qmap-shape-metadata", f"QMap.shape = {qm.shape} for a {xn} x {yn} grid", {"input": meta})
         observe_map(ctx, qm, curves, xn, yn, "nothing-fitted", lines, expect, meta)
         # fit / rate / refit random subsets; the map must always show the current values
-        for rnd in range(3 if ctx.tier == "quick" else 5):
-            sub = [c for c in curves if rng.random() < 0.6]
-            act = rng.choice(["fit", "fit-gcf", "rate", "refit-other", "failed-fit"])
+        for rnd in range(4 if ctx.tier == "quick" else 7):
+            sub = [c for c in curves if rng.random() < 0.6] or curves[:1]
+            # the first round fits; afterwards every kind of action comes up in turn (shuffled per run)
+            act = "fit" if rnd == 0 else acts[next_act[0] % len(acts)]
+            next_act[0] += rnd > 0
             for c in sub:
                 idnt = c["idnt"]
                 with warnings.catch_warnings():
@@ -465,6 +470,14 @@ def maps(ctx, lines, expect):
                         elif act == "refit-other":
                             idnt.fit_model(model_key="hertz_cone", gcf_k=1.0,
                                            preprocessing=["compute_tip_position", "correct_tip_offset"])
+                        elif act == "failed-refit-stale-params":
+                            # unsuccessful refit that keeps the parameters of its first internal pass
+                            try:
+                                idnt.fit_model(model_key="hertz_para", range_x=(-1e-12, 1e-12),
+                                               range_type="relative cp",
+                                               preprocessing=["compute_tip_position", "correct_tip_offset"])
+                            except BaseException:  # noqa
+                                pass
                         elif act == "failed-fit":
                             try:
                                 idnt.fit_model(model_key="hertz_para", range_x=(1e-3, 2e-3), range_type="absolute",
@@ -519,7 +532,7 @@ def run(ctx):
                 "without metadata overrides); random folders (2-6 files incl. at least one multi-curve map, sub-folder, "
                 "synthetic HDF5 files of 1-11 curves, random sort positions); the four spring-constant / tip-position "
                 "combinations x append / +=; in-memory maps (6 fixed + random shapes x 5 scan orders x missing and "
-                "duplicate pixels) x fit / geometric-correction fit / refit with another model / failed fit / rating "
+                "duplicate pixels) x fit / geometric-correction fit / refit with another model / failed fit / unsuccessful refit with stale parameters / rating "
                 "of random subsets, three features each; recorded maps; non-trivial = distinct (files, wrapper) or "
                 "(map, feature, state)")
     ctx.build(MODS, clean=(ctx.tier == "thorough"))
